@@ -510,6 +510,8 @@ def structural(stages):
     fails = []
     introduced_total = 0
     structural.guarded = 0
+    structural.vanished = set()
+    original_names = set(occurrences(stages[0][1])) if stages else set()
     for p, before, after in stages:
         occ = occurrences(before)
         names_in = set(occ)
@@ -534,6 +536,8 @@ def structural(stages):
             for d in intro:
                 for v in sorted(stmt_writes(d)):
                     introduced_vars.add(v)
+                    if v in original_names and v not in names_in:
+                        structural.vanished.add(v)
                     if v in names_in:
                         fails.append(("fresh-variable",
                                       "pass %s introduces variable %r (statement %s) but the phase already uses that "
@@ -558,12 +562,15 @@ def structural(stages):
     return fails, introduced_total
 
 
-def semantic(prog, before, after):
-    """returns (ok, detail, info) ; ok None = out of domain"""
+def semantic(prog, before, after, vanished=frozenset()):
+    """returns (ok, detail, info) ; ok None = out of domain.
+    info["explained"]: every difference consists only of (a) additional calls that the original performs when
+    conditional expressions evaluate both branches and/or (b) changed final values of variables in `vanished`
+    (names of the original phase that no longer occurred in the statements when a later pass generated them)"""
     occ = occurrences(before)
     loop_ids = {n for n, r in occ.items() if "loop_ident" in r}
     observed = sorted(set(occ) - loop_ids)
-    hoist_only = True
+    explained, uses_hoist, uses_vanished = True, False, False
     bad = None
     seq_differs = False
     for env in valuations(prog, occ):
@@ -575,36 +582,40 @@ def semantic(prog, before, after):
             e1, l1 = run(after, env)
         except UnsetRead as ex:
             d = "after the pass, variable %r is read before it is set (valuation %s)" % (str(ex), env)
-            return False, d, {"hoist_only": False, "unset": str(ex)}
+            return False, d, {"hoist_only": False, "explained": False, "unset": str(ex)}
         except Exception as ex:
             return False, "after the pass the phase fails to run: %s: %s" % (type(ex).__name__, ex), \
-                {"hoist_only": False}
-        vals_ok = all(e0.get(n) == e1.get(n) and (n in e0) == (n in e1) for n in observed)
+                {"hoist_only": False, "explained": False}
+        diff_names = [n for n in observed if e0.get(n) != e1.get(n) or (n in e0) != (n in e1)]
         c0, c1 = Counter(l0), Counter(l1)
         if l0 != l1:
             seq_differs = True
-        if vals_ok and c0 == c1:
+        if not diff_names and c0 == c1:
             continue
-        # is the difference fully explained by calls of untaken conditional-expression branches?
-        expl = False
-        if vals_ok and not (c0 - c1):
+        expl = not (c0 - c1) and set(diff_names) <= set(vanished)
+        extra = c1 - c0
+        if expl and extra:
             try:
                 _, le = run(before, env, eager=True)
-                extra = c1 - c0
                 expl = not (extra - (Counter(le) - c0))
             except Exception:
                 expl = False
-        if not expl:
-            hoist_only = False
+        if expl:
+            uses_hoist = uses_hoist or bool(extra)
+            uses_vanished = uses_vanished or bool(diff_names)
+        else:
+            explained = False
         if bad is None or not expl:
-            diffs = [(n, e0.get(n), e1.get(n)) for n in observed if e0.get(n) != e1.get(n)]
+            diffs = [(n, e0.get(n), e1.get(n)) for n in diff_names]
             bad = "valuation %s: values (name, before, after) %s; calls only before %s; calls only after %s" % (
-                env, diffs[:4], sorted((c0 - c1).elements())[:4], sorted((c1 - c0).elements())[:4])
+                env, diffs[:4], sorted((c0 - c1).elements())[:4], sorted(extra.elements())[:4])
             if not expl:
                 break
     if bad is None:
         return True, "", {"seq_differs": seq_differs}
-    return False, bad, {"hoist_only": hoist_only}
+    return False, bad, {"explained": explained, "uses_hoist": explained and uses_hoist,
+                        "uses_vanished": explained and uses_vanished,
+                        "hoist_only": explained and uses_hoist and not uses_vanished}
 
 
 _MEMO = {}
@@ -632,7 +643,8 @@ def _evaluate(prog, pipeline, seed_all_names=False):
     info["introduced"] = intro
     info["guarded_rewritten"] = structural.guarded
     info["changed"] = intro > 0
-    ok, detail, sinfo = semantic(prog, ast, stages[-1][2])
+    info["vanished"] = sorted(structural.vanished)
+    ok, detail, sinfo = semantic(prog, ast, stages[-1][2], frozenset(structural.vanished))
     info.update(sinfo)
     if ok is None:
         info["out_of_domain"] = True
@@ -752,8 +764,8 @@ def _capture_explains(inp, allowed):
         for clause, detail, data in fails:
             if clause != inp["clause"]:
                 continue
-            if clause == "same-values-and-calls" and data.get("hoist_only"):
-                continue                   # the residue is the D20 pattern
+            if clause == "same-values-and-calls" and data.get("explained"):
+                continue                   # the residue is the D20 pattern and/or a regenerated vanished name
             name = data.get("var") if clause == "set-before-read" else data.get("unset")
             if (name or "").startswith("<cond>ifthenelse_cond") and has_if_in_branch(inp["program"]):
                 continue                   # the residue is the nested-conditional-expression pattern
@@ -818,7 +830,18 @@ def fp_nested_if(inp):
     return True
 
 
+def fp_vanished(inp):
+    """a user variable that no longer occurs in any statement after an earlier pass (its only use was simplified
+    away when the statement was rebuilt, e.g. 0*tmp_0 -> 0) is generated again by a later pass; only the final
+    value of that variable differs (plus possibly calls hoisted out of untaken branches)"""
+    if inp.get("clause") != "same-values-and-calls" or inp.get("pipeline") != "fortran":
+        return False
+    res = check(inp)
+    return bool(res) and all(data.get("explained") and data.get("uses_vanished") for _, _, _, data in res)
+
+
 FINGERPRINTS = {
+    "vanished_name_generated_by_later_pass": fp_vanished,
     "nested_if_inner_statements_before_outer_flag": fp_nested_if,
     "D9_capture_loop_bound_or_lhs_subscript": fp_d9,
     "D10_isolate_calls_nested_call_typeerror": fp_d10,
